@@ -13,6 +13,9 @@ SPEC = {
         {"name": "histories", "pkg": SS, "kind": "rapid", "run": "^TestVerifC15Histories$",
          "quick": {"checks": 100, "shards": 3, "timeout": 300},
          "thorough": {"checks": 300, "shards": 16, "timeout": 1500}},
+        {"name": "concurrent", "pkg": SS, "kind": "rapid", "run": "^TestVerifC15ConcurrentDials$",
+         "quick": {"checks": 100, "shards": 1, "timeout": 300, "shrinktime": "10s"},
+         "thorough": {"checks": 300, "shards": 4, "timeout": 1500, "race": True}},
         {"name": "freerun", "pkg": SS, "kind": "rapid", "run": "^TestVerifC15FreeRun$",
          "quick": {"checks": 300, "shards": 1, "timeout": 300},
          "thorough": {"checks": 2500, "shards": 4, "timeout": 1500, "race": True}},
@@ -20,7 +23,7 @@ SPEC = {
 }
 
 TEXT = {
-    "technique": "complete enumeration of response split points + complete enumeration of the burst padding arithmetic (burst tail x sampled length) + rapid sessions (lock-step, bit flips) + rapid state machine over one state directory against a ticket-store model + free-running concurrent sessions (-race in thorough)",
+    "technique": "concurrent Dials against one stored ticket with the store's checkpoint held open from outside (-race in thorough) + complete enumeration of response split points + complete enumeration of the burst padding arithmetic (burst tail x sampled length) + rapid sessions (lock-step, bit flips) + rapid state machine over one state directory against a ticket-store model + free-running concurrent sessions (-race in thorough)",
     "engine": "rapid + enumeration; real client through ClientFactory/ParseArgs/Dial on the gated in-memory wire against the reference ScrambleSuit server verifkit/refss (in-package harness in transports/scramblesuit)",
     "level_text": ("Exploration. Every split point of the server's UniformDH response (quick: the last 64 offsets) is enumerated for padding "
                    "lengths {0,1,15,16,17,1308} and for the lengths that put the response end 1 or 16 bytes behind a Go allocator size class, "
